@@ -87,6 +87,11 @@ type Recorder struct {
 	// Hook, if set, is called (without the lock) before every faultable event
 	// and statement close; used by schedule-owning checks to park calls.
 	Hook func(e *Event)
+	// RollbackFault, if set, is asked after a driver-level ROLLBACK has been carried
+	// out (the real transaction IS rolled back) whether the driver should report an
+	// error for it all the same, e.g. driver.ErrBadConn on a connection that died.
+	// Fault plans never touch ROLLBACK; this is a separate, opt-in hook (C04).
+	RollbackFault func(e *Event) error
 
 	// rows-iteration tracking (opt-in, see TrackRows): Next calls are counted
 	// and faultable separately from the event log, so enabling it changes
@@ -367,7 +372,9 @@ func (c *conn) fail(err error) error {
 
 func (c *conn) Ping(ctx context.Context) error { return c.raw.Ping(ctx) }
 
-func (c *conn) Prepare(q string) (driver.Stmt, error) { return c.PrepareContext(context.Background(), q) }
+func (c *conn) Prepare(q string) (driver.Stmt, error) {
+	return c.PrepareContext(context.Background(), q)
+}
 
 func (c *conn) PrepareContext(ctx context.Context, q string) (driver.Stmt, error) {
 	e := &Event{Kind: Prepare, Text: q, Ctx: ctx, ConnID: c.id, TxID: c.txID}
@@ -471,6 +478,12 @@ func (t *tx) Rollback() error {
 	err := t.raw.Rollback()
 	t.c.r.setErr(e.Seq, err)
 	t.done()
+	if f := t.c.r.RollbackFault; err == nil && f != nil {
+		if ferr := f(e); ferr != nil {
+			t.c.r.setErr(e.Seq, ferr)
+			return t.c.fail(ferr)
+		}
+	}
 	return err
 }
 
